@@ -39,6 +39,10 @@ func runC14(c *Ctx) {
 		users = append(users, authconfig.UserConfig{Username: "Alice", Password: "another password entirely"})
 	}
 	if c.T.Bool(1, 4) {
+		// a configured password that begins and ends with a blank
+		users = append(users, authconfig.UserConfig{Username: "dora", Password: " two words "})
+	}
+	if c.T.Bool(1, 4) {
 		// an account with a long principal-style name
 		users = append(users, authconfig.UserConfig{Username: "svc-" + longName(150) + "@subsidiary.emea.corp.example.com", Password: "a passphrase of several words, with punctuation!"})
 	}
